@@ -647,6 +647,16 @@ theorem circ_hz_pu_def (a b : ℝ) :
   simp only [dec, pown]
   norm_num
 
+/-- **Angle-class arguments.** Every angle parameter of `enu2xyz` is read by the source only through
+`angular_typecheck` (list regenerated by the translator from the current text), so passing an angle object of any of
+the five classes is passing its decimal-degree value: the theorems of this file, stated for numbers, cover them. -/
+theorem angle_arguments_reduced_enu2xyz : GenR.Geodesy.enu2xyz_angle_params = ["lat", "lon"] := rfl
+
+/-- **Angle-class arguments.** Every angle parameter of `xyz2enu` is read by the source only through
+`angular_typecheck` (list regenerated by the translator from the current text), so passing an angle object of any of
+the five classes is passing its decimal-degree value: the theorems of this file, stated for numbers, cover them. -/
+theorem angle_arguments_reduced_xyz2enu : GenR.Geodesy.xyz2enu_angle_params = ["lat", "lon"] := rfl
+
 end GeodeVerif.C16
 
 #print axioms GeodeVerif.C16.rot_orthonormal
